@@ -30,7 +30,7 @@ TcOrder == <<"tc::lift", "tc::assign", "tc::infer", "tc::unify", "tc::layout">>
 MCInit ==
     \E i \in Intervals, m \in 0..MaxMain, t \in 0..MaxTc :
     \E copies \in [1..m -> 0..MaxCopy] :
-        /\ I = i /\ since = [s \in Sites |-> 0] /\ cur = "none" /\ polls = 0
+        /\ I = i /\ since = [s \in Sites |-> 0] /\ polled = [s \in Sites |-> FALSE] /\ cur = "none" /\ polls = 0
         /\ stopSeen = FALSE /\ stopSite = "none" /\ afterPolls = 0 /\ afterMain = 0 /\ ended = FALSE
         /\ wchk = WGood
         /\ plan = [main |-> copies, tc |-> t]
